@@ -47,6 +47,10 @@ RULE = ("pipelines of 1-3 grammar-built requests x delegate scripts (sync/async/
         "non-trivial = a delegate received headers and the peer or a timeout or the server ended the exchange before the pipeline "
         "was fully served, or >=2 requests were served")
 EXHAUSTIVE = {"quick": False, "thorough": False}
+CLAUSE_CAVEATS = [
+    'the tie drives raw delegates and HTTPServer request callbacks and a real tornado.web Application incl. stream_request_body handlers; body_timeout combined with an asynchronous data_received is outside the generated domain',
+    'data_prefix counts bytes against the body the harness sent (byte counts, not byte contents); contents are compared by the tie',
+]
 CLAUSES = {
     "a delegate that has received headers is told exactly once finish or close, never both":
         "notify_exactly_once + never_both + notify_spec (all configurations, all event sequences; invariant exec_inv)",
